@@ -126,6 +126,32 @@ CHECKS['C10'] = dict(
     design='5/C10',
 )
 
+CHECKS['C04'] = dict(
+    level='model_checking',
+    text=("Explicit-state BFS over sequences of interpreter calls on a real SerializingInterpreter (42 primitive events: "
+          "pushes, constructors, rules, instantiate with every key order, pop/save/load, publish in each phase, phase "
+          "changes; plus 12 whole-pattern macro events through Interpreter.pattern incl. notation), from the fresh "
+          "interpreter and from a proof-phase state with axioms and claims. After every accepted call the bytes emitted so "
+          "far run on the real Rust machine and on the reference machine; stack, memory and claim queue must be the same "
+          "terms as the tracker's (notation expanded, symbols numbered by the serialiser's table)."),
+    note=("Known findings (known_findings.json): the generator's missing well-formedness checks (non-positive mu, redundant "
+          "substitution, constraint-violating / capturing instantiation) and use of an entry the tracker keeps after "
+          "publishing it. Arguments of calls are the tracker's own stack entries; publish_claim only for declared claims."),
+    technique='explicit-state BFS over interpreter call histories with the real machine replaying the emitted bytes after every step',
+    design='5/C04',
+)
+CHECKS['C14'] = dict(
+    level='model_checking',
+    text=("Same exploration of interpreter call histories as C04; for every reached state whose bytes the real checker "
+          "accepts, the bytes of all phases are fed through deserialize_instructions into a fresh SerializingInterpreter "
+          "(must re-emit identical bytes and reach the same stack/memory/claims, symbols renumbered) and into a fresh "
+          "PrettyPrintingInterpreter (same step listing as the original calls); every prefix cutting an operand and every "
+          "opcode replaced by an unknown one must raise."),
+    note='Trusted: instruction-boundary decoder in mc/c14.py written from the document.',
+    technique='explicit-state BFS over interpreter call histories; round trip and fault enumeration on every state',
+    design='5/C14',
+)
+
 NOT_YET = {
 }
 
